@@ -74,8 +74,10 @@ def worker(job):
     try:
         sys.setrecursionlimit(20000)
         from . import vc as _vc
-        if os.environ.get('VERIF_TIER_EFFECTIVE') == 'deep':
-            _vc.TIME_SCALE = 4          # wall-clock caps of the solver portfolio: 16 of these run at once
+        _mod = load_sidecar(pid)
+        _c = (_mod.CONTRACTS if kind == 'contract' else _mod.LEMMAS)[idx]
+        if getattr(_c, 'tier', 'quick') in ('thorough', 'deep'):
+            _vc.TIME_SCALE = 6          # slow contracts: wall-clock caps of the solver portfolio (16 of these run at once)
         from .vc import Verifier
         mod = load_sidecar(pid)
         vr = Verifier(repo, HERE)
